@@ -53,9 +53,25 @@ def expected(docs, est, cfg):
     for o, r in zip(cfg["orientations"], cfg["radii"]):
         for side in ([True, False] if o == "directional" else [o == "before"]):
             rev.append(side)
-            row = [r] * (V + 1)
-            if cfg.get("nullify"):
-                row[V - 1] = 0
+            if cfg.get("window_function") == "variable":
+                freqs = [float(f) for f in est._token_frequencies_]
+                rad = [f ** (0.75 - 1) for f in freqs]
+                norm = sum(a * f for a, f in zip(rad, freqs))
+                rad = [a / norm for a in rad]
+                rad.append(min(rad))
+                if cfg.get("nullify"):
+                    rad[V - 1] = 0.0
+                row = []
+                for x in rad:
+                    x = x * r
+                    if 0 < x < 1:
+                        x = 1.0
+                    row.append(int(round(x)))
+                row = row + [0] * (V + 1 - len(row))
+            else:
+                row = [r] * (V + 1)
+                if cfg.get("nullify"):
+                    row[V - 1] = 0
             radii.append(row)
     return reference(seqs, V, radii, rev, cfg["kernel"], (V - 1) if cfg.get("nullify") else None, cfg["normalize_windows"])
 
@@ -64,7 +80,8 @@ def _mk(cfg, inp):
     kw = dict(window_radii=cfg["radii"] if len(cfg["radii"]) > 1 else cfg["radii"][0],
               window_orientations=cfg["orientations"] if len(cfg["orientations"]) > 1 else cfg["orientations"][0],
               kernel_functions=cfg["kernel"] if len(cfg["radii"]) == 1 else [cfg["kernel"]] * len(cfg["radii"]),
-              window_functions="fixed" if len(cfg["radii"]) == 1 else ["fixed"] * len(cfg["radii"]), normalize_windows=cfg["normalize_windows"],
+              window_functions=cfg.get("window_function", "fixed") if len(cfg["radii"]) == 1 else [cfg.get("window_function", "fixed")] * len(cfg["radii"]),
+              normalize_windows=cfg["normalize_windows"],
               n_threads=cfg.get("n_threads", 1), coo_initial_memory=cfg.get("mem", "0.5 GiB"))
     if cfg.get("mask") is not None:
         kw["mask_string"] = cfg["mask"]
